@@ -165,17 +165,67 @@ def abtest(ctx) -> None:
     slots = [c for c in core.walk_local(init.node) if isinstance(c, ast.Call) and core.src(c.func) == 'self.Slot']
     exact = all(len(c.args) == 2 and isinstance(c.args[1], ast.BinOp) and isinstance(c.args[1].op, ast.Div) for c in slots)
     ctx.check(not lossy and bool(slots) and exact, 'C17.abtest', init, f'every slot gets the exact quotient target / combined (lossy conversions: {[core.src(c)[:30] for c in lossy]})', lossy[0] if lossy else init.node, key='init:exact-share')
-    srt = next((c for c in core.calls_in(init.node) if core.call_name(c) == 'sorted'), None)
-    oks = srt is not None and any(k.arg == 'reverse' and core.is_const(k.value, True) for k in srt.keywords) and any(k.arg == 'key' and core.src(k.value).replace(' ', '') == 'lambdas:s.target' for k in srt.keywords)
-    ctx.check(oks, 'C17.abtest', init, 'slots are probed from the largest target share down (sorted by target, descending): the dominant variant is never starved by smaller ones', srt or init.node, key='init:slot-order')
-    imp = next((s for s in core.walk_local(init.node) if isinstance(s, ast.Assign) and core.src(s.targets[0]) == 'implicit'), None)
-    oki = imp is not None and core.src(imp.value).replace(' ', '') == '(1-explicit)/missingifexplicit<1elseexplicit/len(targets)'
-    ctx.check(oki, 'C17.abtest', init, 'an omitted target is the complement to 1 shared by the omitted variants (fractions) or the mean of the provided integer weights (sum / number of provided targets) as documented', imp or init.node, key='init:implicit-weight')
-    ctx.check('missing = sum((1 for v in variants if not v.target))' in text, 'C17.abtest', init, 'the omitted targets are counted one per variant', init.node, key='init:missing-count')
+    # the arithmetic of the omitted targets, read off the normal form of __init__ (temporaries, sort spelling, key function
+    # spelling and the counting idiom do not matter)
+    nf = init.normal().node
+    defs: dict = {}
+    for a in ast.walk(nf):
+        if isinstance(a, ast.Assign) and len(a.targets) == 1 and isinstance(a.targets[0], ast.Name):
+            defs.setdefault(a.targets[0].id, []).append(a.value)
+
+    def one(e):
+        """the single definition of a name (or the expression itself)"""
+        while isinstance(e, ast.Name) and len(defs.get(e.id, [])) == 1:
+            e = defs[e.id][0]
+        return e
+
+    vname = next((n for n, vals in defs.items() if len(vals) == 1 and isinstance(vals[0], ast.Tuple) and [core.src(e) for e in vals[0].elts] == ['avar', 'bvar', '*others']), 'variants')
+
+    def is_target_of(e, var: str) -> bool:
+        return isinstance(e, ast.Attribute) and e.attr == 'target' and isinstance(e.value, ast.Name) and e.value.id == var
+
+    srt = next((c for c in ast.walk(nf) if isinstance(c, ast.Call) and core.call_name(c) == 'sorted'), None)
+    keyf = next((k.value for k in srt.keywords if k.arg == 'key'), None) if srt is not None else None
+    oks = srt is not None and any(k.arg == 'reverse' and core.is_const(k.value, True) for k in srt.keywords) and isinstance(keyf, ast.Lambda) and len(keyf.args.args) == 1 and is_target_of(keyf.body, keyf.args.args[0].arg)
+    ctx.check(oks, 'C17.abtest', init, 'slots are probed from the largest target share down (sorted by target, descending): the dominant variant is never starved by smaller ones', init.node, key='init:slot-order')
+    # targets = [v.target or implicit for v in variants]
+    fill = None
+    for vals in defs.values():
+        for v in vals:
+            if isinstance(v, ast.ListComp) and len(v.generators) == 1 and not v.generators[0].ifs and isinstance(v.generators[0].target, ast.Name) and core.src(v.generators[0].iter) == vname:
+                var = v.generators[0].target.id
+                e = v.elt
+                if isinstance(e, ast.BoolOp) and isinstance(e.op, ast.Or) and len(e.values) == 2 and is_target_of(e.values[0], var) and isinstance(e.values[1], ast.Name):
+                    fill = e.values[1]
+                elif isinstance(e, ast.IfExp) and is_target_of(e.test, var) and is_target_of(e.body, var) and isinstance(e.orelse, ast.Name):
+                    fill = e.orelse
+    ctx.check(fill is not None, 'C17.abtest', init, 'omitted targets are filled position-wise ([v.target or implicit for v in variants])', init.node, key='init:implicit')
+    imp = one(fill) if fill is not None else None
+    given = None  # the list of the provided targets
+    for name, vals in defs.items():
+        for v in vals:
+            if isinstance(v, ast.ListComp) and len(v.generators) == 1 and core.src(v.generators[0].iter) == vname and isinstance(v.generators[0].target, ast.Name) and is_target_of(v.elt, v.generators[0].target.id) and len(v.generators[0].ifs) == 1 and is_target_of(v.generators[0].ifs[0], v.generators[0].target.id):
+                given = name
+    oki = okm = False
+    if isinstance(imp, ast.IfExp) and given is not None:
+        t, b, o = imp.test, imp.body, imp.orelse
+        if isinstance(t, ast.Compare) and len(t.ops) == 1 and isinstance(t.ops[0], ast.GtE) and core.is_const(t.comparators[0], 1):
+            t, b, o = ast.Compare(left=t.left, ops=[ast.Lt()], comparators=t.comparators), o, b
+        total_of = lambda e: core.src(one(e)) == f'sum({given})'  # noqa: E731
+        shape = isinstance(t, ast.Compare) and len(t.ops) == 1 and isinstance(t.ops[0], ast.Lt) and core.is_const(t.comparators[0], 1) and total_of(t.left)
+        shape = shape and isinstance(b, ast.BinOp) and isinstance(b.op, ast.Div) and isinstance(b.left, ast.BinOp) and isinstance(b.left.op, ast.Sub) and core.is_const(b.left.left, 1) and total_of(b.left.right)
+        shape = shape and isinstance(o, ast.BinOp) and isinstance(o.op, ast.Div) and total_of(o.left) and core.src(o.right) == f'len({given})'
+        oki = bool(shape)
+        if shape:
+            m = one(b.right)
+            mt = core.src(m)
+            count_gen = isinstance(m, ast.Call) and core.call_name(m) == 'sum' and len(m.args) == 1 and isinstance(m.args[0], (ast.GeneratorExp, ast.ListComp)) and core.is_const(m.args[0].elt, 1) and len(m.args[0].generators) == 1 and core.src(m.args[0].generators[0].iter) == vname and len(m.args[0].generators[0].ifs) == 1 and isinstance(m.args[0].generators[0].ifs[0], ast.UnaryOp) and is_target_of(m.args[0].generators[0].ifs[0].operand, core.src(m.args[0].generators[0].target))
+            okm = count_gen or mt == f'len({vname}) - len({given})'
+    ctx.check(oki, 'C17.abtest', init, 'an omitted target is the complement to 1 shared by the omitted variants (fractions) or the mean of the provided integer weights (sum / number of provided targets) as documented', init.node, key='init:implicit-weight')
+    ctx.check(okm, 'C17.abtest', init, 'the omitted targets are counted one per variant', init.node, key='init:missing-count')
     gen = prog.func('forml.application._descriptor:Generic.__init__')
     ctx.check(any(core.src(a.value) == 'selector or _strategy.Latest(project=name)' for a in core.walk_local(gen.node) if isinstance(a, (ast.Assign, ast.AnnAssign)) and a.value is not None and core.src(a.target if isinstance(a, ast.AnnAssign) else a.targets[0]) == 'self._strategy'), 'C17.abtest', gen, 'a generic application uses the given selector, else the latest strategy of its own project', gen.node, key='generic:strategy')
     ctx.check('len(set(variants)) != len(variants)' in text and 'raise ValueError' in text, 'C17.abtest', init, 'duplicate variants are rejected', init.node, key='init:exclusive')
-    ctx.check('targets = [v.target or implicit for v in variants]' in text, 'C17.abtest', init, 'omitted targets are filled position-wise', init.node, key='init:implicit')
     # builder: an omitted project/release of a further variant is inherited from the previous one; a given one wins
     ov = prog.func(f'{ci.ref}.Builder.over')
     vcalls = [c for c in core.calls_in(ov.node) if core.call_tail(c) == 'Variant']
